@@ -12,7 +12,14 @@ use std::sync::atomic::{AtomicUsize, Ordering};
 use std::sync::Mutex;
 
 pub fn class_key(pp: &Value) -> String {
-    format!("{}|{}|{}|{}", pp["pat"].as_str().unwrap_or(""), pp["psks"], pp["publen"], pp["initpad"])
+    format!(
+        "{}|{}|{}|{}{}",
+        pp["pat"].as_str().unwrap_or(""),
+        pp["psks"],
+        pp["publen"],
+        pp["initpad"],
+        if pp["hfs"].as_bool().unwrap_or(false) { "|hfs" } else { "" }
+    )
 }
 
 const PROLOGUE_LENS: [usize; 9] = [0, 1, 63, 64, 65, 127, 128, 129, 300];
@@ -176,7 +183,7 @@ pub fn main(o: &Opts) -> Result<i32, String> {
                     return Err(format!("scenario name {nm}"));
                 }
                 let ps = PrimSet {
-                    dh: DhAlg::parse(parts[2]).ok_or("scn dh")?,
+                    dh: DhAlg::parse(parts[2].split('+').next().unwrap_or("")).ok_or("scn dh")?,
                     cipher: CipherAlg::parse(parts[3]).ok_or("scn cipher")?,
                     hash: HashAlg::parse(parts[4]).ok_or("scn hash")?,
                 };
